@@ -16,11 +16,11 @@ import (
 )
 
 type ReplayResult struct {
-	Attempted  bool   `json:"attempted"`
-	Reproduced bool   `json:"reproduced"`
-	Why        string `json:"why,omitempty"`
-	Test       string `json:"test_source,omitempty"`
-	Output     string `json:"output,omitempty"`
+	Attempted  bool              `json:"attempted"`
+	Reproduced bool              `json:"reproduced"`
+	Why        string            `json:"why,omitempty"`
+	Test       string            `json:"test_source,omitempty"`
+	Output     string            `json:"output,omitempty"`
 	Inputs     map[string]string `json:"inputs,omitempty"`
 }
 
@@ -137,7 +137,7 @@ func (e *Engine) replay(o *Obl, prop string) ReplayResult {
 					val = fmt.Sprintf("%s(%d)", ts, uint64(n)&mask(intWidth(u)))
 				} else {
 					w := intWidth(u)
-					sv := int64(uint64(n) << uint(64-w)) >> uint(64-w)
+					sv := int64(uint64(n)<<uint(64-w)) >> uint(64-w)
 					val = fmt.Sprintf("%s(%d)", ts, sv)
 				}
 				inputs[p.Name()] = val
@@ -271,7 +271,6 @@ func (e *Engine) replay(o *Obl, prop string) ReplayResult {
 	}
 	return rr
 }
-
 
 // structLiteral builds &T{...} from the model's values for the scalar fields (two levels of pointers).
 func structLiteral(name string, pt *types.Pointer, model map[string]string, qual types.Qualifier, depth int) (string, bool) {
